@@ -118,6 +118,10 @@ pub const EDGE_FENS: &[&str] = &[
     "r3k2r/8/8/8/8/8/8/R3K2R w KQkq - 95 80",
     "r1bq1rk1/pp2ppbp/2np1np1/8/3NP3/2N1BP2/PPPQ2PP/R3KB1R w KQ - 98 3000",
     "8/8/4k3/8/8/3K4/8/7R b - - 99 5990",
+    // won endgames with a forced mate several moves deep (mate scores at every depth from 5 or so)
+    "3k4/8/8/3K4/8/8/8/R7 w - - 0 1",
+    "8/8/8/8/8/k7/2Q5/2K5 w - - 0 1",
+    "8/8/8/4k3/8/8/1R6/K6R b - - 0 1",
     // frozen armies: one side has not a single pseudo-legal move (every unit blocked by its own men,
     // by the edge or by an enemy pawn straight ahead) - at the root's reply, or once its last free
     // pawn has been blocked by the king; the other side moves freely
@@ -145,6 +149,8 @@ pub const QUEEN_RICH_FENS: &[&str] = &[
     "6rk/6pp/qQqQqQ2/QqQqQq2/qQ6/8/PP6/KR6 w - - 0 1",
     "7k/6pp/QqQqQq2/qQqQqQ2/8/8/PP6/K7 w - - 0 1",
     "k7/pp6/8/8/2qQqQqQ/2QqQqQq/6PP/7K b - - 0 1",
+    // twelve queens a side on open files: the capture search below the first ply runs for minutes
+    "1qqqqqqk/1qqqqqq1/8/8/8/8/1QQQQQQ1/KQQQQQQ1 w - - 0 1",
 ];
 
 pub fn queen_rich_seeds() -> Vec<String> {
